@@ -4,6 +4,7 @@ import Kopf.Model.C19_Ensemble
 import Kopf.Model.C19_Insights
 import Kopf.Model.C19_Orchestrator
 import Kopf.Model.C19_Resources
+import Kopf.Model.C19_Discovery
 open Lean
 namespace Kopf.Drv.C19
 open Kopf.C19
@@ -201,6 +202,25 @@ def orchEnd (s : Kopf.C19.Orch.State) : List Kopf.C19.Orch.Label → String
       | none => "disabled"
       | some s' => orchEnd s' rest
 
+def crdItemOf? (j : Json) : Option Kopf.C19.Disc.Item := do
+  match ← jArr? j with
+  | [.str t, n, g, grp, found] =>
+      let ty ← (match t with
+        | "LISTED" => some Kopf.C19.Disc.Ty.listed | "ADDED" => some .added
+        | "MODIFIED" => some .modified | "DELETED" => some .deleted | _ => none)
+      some ⟨ty, ← jNat? n, ← jNat? g, ← jNat? grp, ← (← jArr? found).mapM jNat?⟩
+  | _ => none
+
+def pairOf? (j : Json) : Option (Nat × Nat) := do
+  match ← jArr? j with
+  | [a, b] => some (← jNat? a, ← jNat? b)
+  | _ => none
+
+def crdFold (w : Kopf.C19.Disc.Watched) : List Kopf.C19.Disc.Item → List Kopf.C19.Disc.Watched
+  | [] => []
+  | it :: its => let w' := Kopf.C19.Disc.step w it; w' :: crdFold w' its
+
+
 def handle : DrvHandler := fun op args =>
   match op, args with
   | "C19.orchEnd", [labels] => do
@@ -209,6 +229,11 @@ def handle : DrvHandler := fun op args =>
   | "C19.orch", [labels] => do
       let ls ← (← jArr? labels).mapM labelOf?
       some (ok (.arr (orchReplay (Kopf.C19.Orch.init true) ls).toArray))
+  | "C19.crdfold", [watched0, items] => do
+      let w0 ← (← jArr? watched0).mapM pairOf?
+      let its ← (← jArr? items).mapM crdItemOf?
+      some (ok (.arr ((crdFold w0 its).map (fun w => Json.arr (w.map (fun (p : Nat × Nat) =>
+        Json.arr #[Json.num ((p.1 : Nat) : Int), Json.num ((p.2 : Nat) : Int)])).toArray)).toArray))
   | "C19.nsfold", [base, feed, univ] => do
       let b ← (← jArr? base).mapM jNat?
       let u ← (← jArr? univ).mapM jNat?
